@@ -1,38 +1,63 @@
 """C07 — encoder API contract: exact size accounting, bounded writes, clean failure.
 
-L: Props/C07.lean (wrappers of asn_application.c over arbitrary encoder interaction trees / chunk lists).
-K: the raw encoder run observed on C (`encraw`: chunk list + result of der_encode/uper_encode/oer_encode/xer_encode)
-   is handed to the Lean model of the wrappers, which must predict what asn_encode_to_buffer (every buffer
-   size n), asn_encode_to_new_buffer and asn_encode (callback failing at invocation k) return on C.
-P: the property predicate evaluated directly on C's outputs (python oracle below), valid values and
-   invalid structures (constraint violations at every position, NULL mandatory pointers, CHOICE present 0 / bad,
-   partially initialised members)."""
-import re, json, collections, subprocess, os
+L: Props/C07.lean (the wrappers of asn_application.c over arbitrary encoder interaction trees / chunk lists).
+K: the raw encoder run observed on C (`encraw <syn> <k>`: every chunk handed to the callback + the encoder's
+   result, with the callback failing at invocation k) is handed to the Lean model of the wrappers, which must
+   predict what asn_encode_to_buffer (every buffer size n), asn_encode_to_new_buffer and asn_encode (callback
+   failing at invocation k) return on C.  The model is parametric in the chunk list: a harmless re-chunking of an
+   encoder does not alarm.
+P: the property predicate evaluated directly on C's outputs (python oracle below) for valid values and for
+   invalid structures (one planted defect at every position: constraint violations, NULL mandatory pointers,
+   CHOICE present 0 / out of range, zero-initialised members)."""
+import re, json, collections, subprocess, os, time
 from .. import build, core, genmod, bundle, gfind
 from . import c01
 
 DS = ("gen_c07_driver.c", "ops_gen_core.c", "ops_gen_c07.c", "reflect.c")
+DEFAULT_OPTS = ("-no-gen-example", "-fcompound-names")
 SYNTAXES = c01.SYNTAXES
-FILL = "a5"
 
 # Entries used until the coordinator has merged them into KNOWN_FINDINGS.json (same schema; an entry with the
 # same id in KNOWN_FINDINGS.json takes precedence).
 PROPOSED_FINDINGS = [
     {"id": "F9", "property": "C07", "status": "known",
-     "what": "SEQUENCE_encode_oer: a failing output callback aborts the process (assert(ret == 0) on the first preamble bit; "
-             "the return value of asn_put_aligned_flush for the preamble / extension bitmap is ignored, so the encoder "
-             "reports success and asn_encode's assert(er.encoded == -1) fires) instead of returning -1/EIO",
+     "what": "SEQUENCE_encode_oer: a failing output callback aborts the process instead of giving -1/EIO: assert(ret == 0) "
+             "after the first preamble bit, and the return value of asn_put_aligned_flush (preamble, extension bitmap) is "
+             "ignored, so the encoder reports success and asn_encode's assert(er.encoded == -1) fires",
      "witness": {"module": "M DEFINITIONS AUTOMATIC TAGS ::= BEGIN S ::= SEQUENCE { a INTEGER (0..255), b BOOLEAN OPTIONAL } END",
                  "type": "S", "op": "enccb oer 1 (seq (a (int 5)))", "expect": "^CRASH .*Assertion"},
-     "matcher": "syntax oer, type contains a SEQUENCE with a preamble (OPTIONAL/DEFAULT member or extension marker), "
-                "callback failure injected; C dies in `SEQUENCE_encode_oer: Assertion` or `asn_encode: Assertion`"},
+     "matcher": "syntax oer, type contains a SEQUENCE with a preamble (OPTIONAL/DEFAULT member or extension marker), callback "
+                "failure injected; C dies in `SEQUENCE_encode_oer: Assertion` or (encoder reported success) `asn_encode: Assertion "
+                "er.encoded == -1`"},
     {"id": "F7", "property": "C07", "status": "known",
-     "what": "SET_OF_encode_uper: an element that fails to encode makes SET_OF__encode_sorted return NULL, which is "
-             "dereferenced (constr_SET_OF.c:1080) instead of returning -1",
+     "what": "SET_OF_encode_uper / SET_OF_encode_der: an element that fails to encode makes SET_OF__encode_sorted return NULL, "
+             "which is dereferenced (constr_SET_OF.c:1080 / :481) instead of returning -1",
      "witness": {"module": "M DEFINITIONS AUTOMATIC TAGS ::= BEGIN SO ::= SET OF INTEGER (0..7) END",
                  "type": "SO", "op": "encnew uper (list (int 1) (int 9))", "expect": "^CRASH .*constr_SET_OF.c"},
-     "matcher": "syntax uper (or der), SET OF whose element encoder fails; C dies inside constr_SET_OF.c with a null "
-                "pointer access"},
+     "matcher": "syntax uper or der, SET OF with an element the element encoder refuses; C dies inside constr_SET_OF.c with a "
+                "null pointer access"},
+    {"id": "F70", "property": "C07", "status": "known",
+     "what": "SET_OF_encode_uper swallows a callback failure: `if(asn_put_many_bits(...) < 0) break;` leaves only the inner loop, "
+             "the encoder returns success with bytes missing (reported size != delivered) and asn_encode aborts on "
+             "assert(er.encoded == -1)",
+     "witness": {"module": "M DEFINITIONS AUTOMATIC TAGS ::= BEGIN SO ::= SET OF INTEGER (0..255) END",
+                 "type": "SO", "op": "enccb uper 0 (list (int 1) (int 2) (int 3))", "expect": "^CRASH .*asn_encode: Assertion `er.encoded == -1'"},
+     "matcher": "syntax uper, type contains SET OF, callback failure injected, uper_encode itself reports success (encraw k: ret >= 0)"},
+    {"id": "F71", "property": "C07", "status": "known",
+     "what": "NULL_encode_der ends with ASN__ENCODED_OK even when der_write_tags failed, which clears failed_type: "
+             "asn_encode_internal then sets ENOENT and asn_encode aborts on assert(errno == EBADF) when the callback fails "
+             "inside a NULL",
+     "witness": {"module": "M DEFINITIONS AUTOMATIC TAGS ::= BEGIN N ::= NULL END",
+                 "type": "N", "op": "enccb der 0 (null)", "expect": "^CRASH .*asn_encode: Assertion `errno == EBADF'"},
+     "matcher": "syntax der, type contains NULL, callback failure injected, der_encode returns -1 with failed_type NULL "
+                "(encraw k: ret=-1 ft=null)"},
+    {"id": "F72", "property": "C07", "status": "known",
+     "what": "overrun_encoder_cb / dynamic_encoder_cb call memcpy(dst, NULL, 0) when an encoder emits the empty contents of a "
+             "zero-initialised OCTET STRING-like member (buf == NULL, size == 0): undefined behaviour (UBSan: null pointer "
+             "passed as argument 2), harmless on common libcs",
+     "witness": {"module": "M DEFINITIONS AUTOMATIC TAGS ::= BEGIN S ::= SEQUENCE { a OCTET STRING, b BOOLEAN } END",
+                 "type": "S", "op": "encnew der (seq (b (bool t)))", "expect": "^CRASH .*asn_application.c.*null pointer passed as argument 2"},
+     "matcher": "structure with a zero-initialised (omitted, inline) buf/size primitive; UBSan report in asn_application.c memcpy"},
 ]
 
 
@@ -40,6 +65,7 @@ def hx(b): return b.hex() if b else "-"
 def unhx(s): return b"" if s in ("-", ".") else bytes.fromhex(s)
 
 
+# ------------------------------------------------------------------------------------------ invalid structures
 class Raw:
     """a literal s-expression planted into a value tree"""
     def __init__(self, text): self.text = text
@@ -70,10 +96,12 @@ def str_bytes(k, s):
     if k == "UTF8String": return s.encode("utf-8")
     return s.encode("latin1")
 
+BUF_KINDS = set(genmod.STRING_KINDS) | {"OCTET STRING", "BIT STRING", "OBJECT IDENTIFIER", "RELATIVE-OID", "UTCTime",
+                                         "GeneralizedTime", "REAL"}
+
 
 def invalid_variants(t, v, env, rng, depth=0):
-    """yields (value-with-one-planted-defect, kind).  kind names the defect class; `must` = syntaxes in which
-    the value has no encoding at all (so success would be a silent mis-encoding)."""
+    """yields (value with one planted defect, kind).  Every position of the value is visited."""
     k = t["k"]
     if k == "REF":
         yield from invalid_variants(env[t["name"]], v, env, rng, depth); return
@@ -83,19 +111,17 @@ def invalid_variants(t, v, env, rng, depth=0):
         if c and not c["ext"]:
             rep = genmod.int_repr(c)
             cands = []
-            if c["hi"] is not None: cands.append(c["hi"] + 1)
-            if c["lo"] is not None and (rep != "ulong" or c["lo"] > 0): cands.append(c["lo"] - 1)
-            for x in cands:
+            if c["hi"] is not None: cands.append((c["hi"] + 1, "int-range" if c["lo"] is not None else "int-range-nolb"))
+            if c["lo"] is not None and (rep != "ulong" or c["lo"] > 0): cands.append((c["lo"] - 1, "int-range" if c["hi"] is not None else "int-range-semi"))
+            for x, kind in cands:
                 if rep == "long" and not -(1 << 63) <= x < (1 << 63): continue
                 if rep == "ulong" and not 0 <= x < (1 << 63): continue
-                if not -(1 << 100) < x < (1 << 100): continue
-                yield Raw("(int %d)" % x), "int-range"
+                yield Raw("(int %d)" % x), kind
     elif k == "ENUMERATED":
         root, extv = genmod.enum_values(t)
-        yield Raw("(enum %d)" % (max(root + extv) + 7)), "enum-unknown"
+        yield Raw("(enum %d)" % (max(root + extv) + 7)), "enum-unknown" if t.get("ext") is None else "enum-unknown-ext"
     elif k in ("OCTET STRING", "BIT STRING") or k in genmod.STRING_KINDS:
         sz = t.get("size")
-        unit = {"BMPString": 2, "UniversalString": 4}.get(k, 1)
         def mk(n):
             if k == "BIT STRING":
                 nb = (n + 7) // 8
@@ -109,12 +135,9 @@ def invalid_variants(t, v, env, rng, depth=0):
             return Raw("(os %s)" % hx(str_bytes(k, ch * n)))
         if sz and not sz["ext"]:
             if sz["hi"] is not None and sz["hi"] < 400: yield mk(sz["hi"] + 1), "size-long"
-            if sz["lo"]: yield mk(sz["lo"] - 1), "size-short"
-        n = len(v[0]) * 8 - v[1] if k == "BIT STRING" else (len(v) if v is not None else 1)
-        if k in ("IA5String", "VisibleString", "PrintableString", "NumericString") and n >= 1:
+            if sz["lo"]: yield mk(sz["lo"] - 1), "size-short" if sz["hi"] is not None else "size-short-semi"
+        if k in ("IA5String", "VisibleString", "PrintableString", "NumericString") and v:
             bad = {"IA5String": 0x80, "VisibleString": 0x1f, "PrintableString": 0x2a, "NumericString": 0x41}[k]
-            if t.get("alpha") and k != "NumericString": bad = 0x7e if k != "PrintableString" else 0x3f
-            if t.get("alpha") and k == "PrintableString": bad = 0x3d
             b = bytearray(str_bytes(k, v)); b[len(b) // 2] = bad
             yield Raw("(os %s)" % hx(bytes(b))), "alphabet"
         if k == "UTF8String": yield Raw("(os c3)"), "utf8-broken"
@@ -125,14 +148,20 @@ def invalid_variants(t, v, env, rng, depth=0):
         yield Raw("(oid 2b8f)"), "oid-truncated"
         yield Raw("(oid -)"), "oid-empty"
     elif k in ("SEQUENCE", "SET"):
-        for c in t["comps"]:
+        for ci, c in enumerate(t["comps"]):
             if c["id"] in v:
                 for x, kind in invalid_variants(c["type"], v[c["id"]], env, rng, depth + 1):
                     w = dict(v); w[c["id"]] = x
                     yield w, kind
-            if c.get("opt") is None and c["id"] in v:
+            is_addition = t.get("ext") is not None and ci >= t["ext"]      # extension additions are optional in C
+            if c.get("opt") is None and c["id"] in v and not is_addition:
                 w = dict(v); del w[c["id"]]
-                yield w, "omit:" + genmod.resolve_kind(c["type"], env).replace(" ", "_")
+                ck = genmod.resolve_kind(c["type"], env)
+                if ck == "INTEGER":
+                    ct = c["type"]
+                    while ct["k"] == "REF": ct = env[ct["name"]]
+                    if genmod.int_repr(ct.get("cons")) is None: ck = "INTEGER_t"
+                yield w, "omit:" + ck.replace(" ", "_")
     elif k == "CHOICE":
         yield Raw("(choice -none)"), "choice-none"
         yield Raw("(choice -bad)"), "choice-bad"
@@ -147,7 +176,7 @@ def invalid_variants(t, v, env, rng, depth=0):
             if sz["hi"] is not None and sz["hi"] < 40:
                 yield list(v) + [ev.value(t["elem"], None, depth + 1) for _ in range(sz["hi"] + 1 - len(v))], "list-long"
             if sz["lo"]:
-                yield list(v)[:sz["lo"] - 1], "list-short"
+                yield list(v)[:sz["lo"] - 1], "list-short" if sz["hi"] is not None else "list-short-semi"
         if v:
             i = rng.randrange(len(v))
             for y, kind in invalid_variants(t["elem"], v[i], env, rng, depth + 1):
@@ -155,15 +184,33 @@ def invalid_variants(t, v, env, rng, depth=0):
                 yield w, kind
 
 
-# kinds of planted defects for which the value has no encoding in the given syntax: success there would be a
-# silently wrong encoding.  (DER and XER do not look at constraints: success is legitimate.)
+# Planted defects for which the value has no encoding at all in the given syntax: success there would be a
+# silently wrong encoding.  (BER/XER and OER's ENUMERATED do not depend on the violated constraint; semi-constrained
+# sizes/values and OER lengths have a general encoding that can carry the out-of-range value; the remaining
+# constraint checking is asn_check_constraints' job — C08 — so success is legitimate elsewhere.)
 MUST_FAIL = {
-    "choice-none": set(SYNTAXES), "choice-bad": set(SYNTAXES), "omit-pointer": set(SYNTAXES),
+    "choice-none": set(SYNTAXES), "choice-bad": set(SYNTAXES), "omit-pointer": set(SYNTAXES), "omit:CHOICE": set(SYNTAXES),
     "int-range": {"uper"}, "size-long": {"uper"}, "size-short": {"uper"}, "list-long": {"uper"}, "list-short": {"uper"},
-    "enum-unknown": {"uper", "oer"},
+    "enum-unknown": {"uper"},
 }
 
 
+def c07_feats(t, env):
+    f = set(gfind.features(t, env))
+    def walk(t, seen):
+        k = t["k"]
+        if k == "REF":
+            if t["name"] in seen: return
+            walk(env[t["name"]], seen | {t["name"]}); return
+        if k == "SEQUENCE" and (t.get("ext") is not None or any(c.get("opt") is not None for c in t["comps"])): f.add("seq_preamble")
+        if k in ("SEQUENCE", "SET", "CHOICE"):
+            for c in t["comps"]: walk(c["type"], seen)
+        if k in ("SEQUENCE OF", "SET OF"): walk(t["elem"], seen)
+    walk(t, set())
+    return f
+
+
+# ------------------------------------------------------------------------------------------ running
 def parse_kv(o):
     return dict(p.split("=", 1) for p in o.split(" ") if "=" in p)
 
@@ -179,8 +226,10 @@ class Case:
 # leaks on encoder failure paths are C14's subject (F21); here they would only hide the API verdicts
 C_ENV = {"ASAN_OPTIONS": "detect_leaks=0:abort_on_error=0:allocator_may_return_null=1"}
 
+
 def run_safe(ctx, exe, lines, timeout):
     """run_c_bisect with a wall-clock limit: a batch that hangs is bisected down to `HANG` lines"""
+    if not lines: return []
     try:
         outs, _ = ctx.run_c_bisect(exe, lines, timeout=timeout, env=C_ENV)
         return outs
@@ -197,9 +246,15 @@ def run_token(raw):
     return "%s:%s:%s" % (kv["ret"], kv["ft"], kv["chunks"])
 
 
+def dead(o):
+    return o is None or o.startswith(("CRASH", "HANG"))
+
+
 def canon_c(o):
     if o is None: return "NONE"
     if o.startswith("CRASH") and "Assertion" in o: return "abort"
+    # errno after a successful call is unspecified (library internals may leave e.g. ERANGE behind)
+    if re.match(r"(ret|buf=\w+ encoded)=\d", o): o = re.sub(r"errno=\w+", "errno=0", o)
     return o
 
 
@@ -207,135 +262,147 @@ class Stats:
     def __init__(self):
         self.fail = collections.OrderedDict()      # class -> [count, sample]
         self.kdis = []
-        self.n_cases = self.n_lines = self.n_k = 0
+        self.n_cases = self.n_lines = self.n_k = self.n_sizes = 0
         self.hist = collections.Counter()
-        self.samples = []
+        self.skipped = collections.Counter()
+        self.k_skipped_cost = 0
     def add(self, cls, sample):
         e = self.fail.setdefault(cls, [0, sample]); e[0] += 1
 
 
-def sizes_for(ctx, total, csizes):
-    cap = 64
-    if total <= cap: return list(range(0, total + 2))
-    s = {0, 1, total - 1, total, total + 1, total + 9}
+def sizes_for(ctx, total, csizes, light):
+    if light: return sorted({0, max(total - 1, 0), total, total + 1})
+    if total <= 64: return list(range(0, total + 2))
+    s = {0, 1, total - 1, total, total + 1, total + 9, 15, 16, 17, 31, 32, 33}
     cum = 0; bounds = []
     for z in csizes:
         cum += z; bounds.append(cum)
     pick = bounds if len(bounds) <= 6 else [bounds[0], bounds[1], bounds[-2]] + ctx.rng.sample(bounds, 3)
     for b in pick: s.update([b - 1, b, b + 1])
-    lim = 14 if ctx.quick else 60
-    if total > 4096: lim = 4 if ctx.quick else 12
+    s.update(ctx.rng.randrange(total) for _ in range(3))
+    lim = 16 if ctx.quick else 64
     s = sorted(x for x in s if 0 <= x <= total + 9)
     if len(s) > lim:
         keep = {0, total - 1, total, total + 1}
         rest = [x for x in s if x not in keep]
-        s = sorted(keep | set(ctx.rng.sample(rest, max(0, lim - len(keep)))))
+        s = sorted(keep | set(ctx.rng.sample(rest, lim - len(keep))))
     return s
 
 
-def ks_for(ctx, n, total):
-    cap = (10 if ctx.quick else 120)
-    if total > 4096: cap = 3
+def ks_for(ctx, n, cap):
     if n <= cap: return list(range(n))
-    if cap < 6: return sorted({0, n // 2, n - 1})
-    head = list(range(3)) + [n - 2, n - 1]
-    rest = [k for k in range(3, n - 2)]
+    if cap < 6: return sorted({0, n // 2, n - 1})[:cap]
+    head = [0, 1, 2, n - 2, n - 1]
+    rest = list(range(3, n - 2))
     return sorted(set(head + ctx.rng.sample(rest, cap - len(head))))
 
 
-def match_known(ctx, case, line, out):
-    """narrow matchers of the known findings of C07"""
+def match_known(ctx, case, key, out):
+    """narrow matchers of the known findings of C07; key = which line of the case produced `out`"""
     o = out or ""
-    if o.startswith("CRASH") and case.syn == "oer" and " enccb " in line and "SEQUENCE" in case.feats and \
-       ("SEQUENCE_encode_oer: Assertion" in o or "asn_encode: Assertion `er.encoded == -1'" in o):
-        return ctx.match_finding(lambda f: f["id"] == "F9")
-    if o.startswith("CRASH") and case.syn in ("uper", "der") and "SET OF" in case.feats and "constr_SET_OF.c" in o \
-       and "null pointer" in o and not case.valid:
-        return ctx.match_finding(lambda f: f["id"] == "F7")
-    if o.startswith("buf=nonnull encoded=-1"):
+    kind = key[0] if isinstance(key, tuple) else key
+    if o.startswith("CRASH"):
+        rawk = case.rawk.get(key[1]) if kind == "cb" else None
+        rk = parse_kv(rawk) if rawk and rawk.startswith("ret=") else {}
+        if case.syn == "oer" and kind in ("cb", "rawk") and "seq_preamble" in case.feats:
+            if "SEQUENCE_encode_oer: Assertion `ret == 0'" in o:
+                return ctx.match_finding(lambda f: f["id"] == "F9")
+            if kind == "cb" and "asn_encode: Assertion `er.encoded == -1'" in o and rk and int(rk["ret"]) >= 0:
+                return ctx.match_finding(lambda f: f["id"] == "F9")
+        if case.syn == "uper" and kind == "cb" and "SET OF" in case.feats and "asn_encode: Assertion `er.encoded == -1'" in o \
+           and rk and int(rk["ret"]) >= 0:
+            return ctx.match_finding(lambda f: f["id"] == "F70")
+        if case.syn == "der" and kind == "cb" and "NULL" in case.feats and "asn_encode: Assertion `errno == EBADF'" in o \
+           and rk and rk["ret"] == "-1" and rk["ft"] == "null":
+            return ctx.match_finding(lambda f: f["id"] == "F71")
+        if case.syn in ("uper", "der") and "SET OF" in case.feats and "constr_SET_OF.c" in o and "null pointer" in o and not case.valid:
+            return ctx.match_finding(lambda f: f["id"] == "F7")
+        if not case.valid and "omit:" in case.kind and kind in ("new", "buf") and "asn_application.c" in o \
+           and "null pointer passed as argument 2" in o:
+            return ctx.match_finding(lambda f: f["id"] == "F72")
+        return None
+    if kind == "new" and o.startswith("buf=nonnull encoded=-1"):
         return ctx.match_finding(lambda f: f["id"] == "F39")
     return None
 
 
 def evaluate(ctx, st, m, txt, opts, cases):
-    """P and K verdicts for the cases of one module (all outputs collected)"""
-    def viol(cls, case, line, out, extra=""):
-        st.add(cls, {"module": txt, "opts": list(opts), "type": case.tn, "op": line, "c_output": str(out)[:600],
+    """P verdicts for the cases of one module"""
+    def viol(cls, case, key, out, extra=""):
+        st.add(cls, {"module": txt, "opts": list(opts), "type": case.tn, "op": case.lines[key], "c_output": str(out)[:600],
                      "kind": case.kind, "syntax": case.syn, "detail": extra[:300]})
     for c in cases:
         st.n_cases += 1
-        st.hist[(c.kind.split(":")[0], c.syn)] += 1
-        L = c.lines
-        # ---- crashes / hangs anywhere
-        dead = False
-        for key, out in [("raw", c.raw), ("clean", c.clean), ("new", c.new)] + [(("buf", n), o) for n, o in c.buf.items()] + [(("cb", k), o) for k, o in c.cb.items()]:
-            if out is None or out.startswith("CRASH") or out.startswith("HANG") or out.startswith("load-error") or out in ("bad-op", "no-type", "no-such-type"):
-                line = L[key]
-                if out and (out.startswith("load-error") or out in ("bad-op", "no-type", "no-such-type")):
-                    viol("harness:" + out[:30], c, line, out); dead = True; continue
-                if match_known(ctx, c, line, out):
-                    st.hist[("known-crash", c.syn)] += 1
-                else:
-                    viol(("hang" if out and out.startswith("HANG") else "crash") + ":" + c.syn + ":" + c.kind.split(":")[0] + ":" + re.sub(r"[^A-Za-z_.]", "", (out or "")[-60:])[:30], c, line, out)
-                if key in ("raw", "clean", "new"): dead = True
-        if dead: continue
+        st.hist[(("valid" if c.valid else "invalid:" + c.kind.split(":")[0]), c.syn)] += 1
+        # ---- crashes / hangs anywhere = failure of P unless a known finding
+        fatal = False
+        allouts = [("raw", c.raw), ("clean", c.clean), ("new", c.new)] + [(("buf", n), o) for n, o in c.buf.items()] \
+            + [(("cb", k), o) for k, o in c.cb.items()] + [(("rawk", k), o) for k, o in c.rawk.items()]
+        for key, out in allouts:
+            if out is not None and (out.startswith("load-error") or out in ("bad-op", "no-type", "no-such-type")):
+                viol("harness:" + out[:30], c, key, out); fatal = True; continue
+            if not dead(out): continue
+            if key in ("raw", "clean"): fatal = True
+            if match_known(ctx, c, key, out):
+                st.hist[("known-crash", c.syn)] += 1
+            else:
+                what = "hang" if out and out.startswith("HANG") else "crash"
+                site = re.sub(r"^CRASH\s+(driver: )?(/\S*/)?", "", out or "none")
+                site = re.sub(r"[^A-Za-z_.:` =-]", "", site)[:50]
+                viol(f"{what}:{c.syn}:{c.kind.split(':')[0]}:{site}", c, key, out)
+        if fatal or dead(c.clean): continue
         clean = parse_kv(c.clean)
         ret = int(clean["ret"])
         full = unhx(clean["delivered"])
         csizes = [] if clean["chunks"] == "-" else [int(x) for x in clean["chunks"].split(",")]
-        # ---- P: reported = delivered (callback variant)
+        # ---- P: reported = delivered (callback variant); clean failure
         if ret >= 0:
-            if ret != len(full) or sum(csizes) != ret: viol("P:reported!=delivered", c, L["clean"], c.clean)
-            if clean["errno"] != "0": st.hist[("errno-touched-on-success", c.syn)] += 1
-            if c.must: viol("P:unencodable-value-accepted:" + c.kind + ":" + c.syn, c, L["clean"], c.clean)
+            if ret != len(full) or sum(csizes) != ret: viol("P:reported!=delivered", c, "clean", c.clean)
+            if c.must: viol("P:unencodable-value-accepted:" + c.kind + ":" + c.syn, c, "clean", c.clean)
             if not c.valid: st.hist[("invalid-accepted", c.kind.split(":")[0], c.syn)] += 1
         else:
-            if ret != -1: viol("P:ret<-1", c, L["clean"], c.clean)
-            if clean["errno"] not in ("EBADF", "ENOENT", "EINVAL"): viol("P:failure-without-errno", c, L["clean"], c.clean)
-            if c.valid: st.hist[("valid-value-refused", c.syn)] += 1
-            else: st.hist[("invalid-refused", c.kind.split(":")[0], c.syn)] += 1
-        # ---- P: asn_encode_to_new_buffer
-        if not c.new.startswith("CRASH"):
+            if ret != -1: viol("P:ret<-1", c, "clean", c.clean)
+            if clean["errno"] not in ("EBADF", "ENOENT", "EINVAL"): viol("P:failure-without-errno", c, "clean", c.clean)
+            st.hist[("valid-value-refused", c.syn) if c.valid else ("invalid-refused", c.kind.split(":")[0], c.syn)] += 1
+        # ---- P: asn_encode_to_new_buffer: exact-length buffer or NULL
+        if not dead(c.new):
             nb = parse_kv(c.new)
             if ret >= 0:
                 if not (c.new.startswith("buf=nonnull") and int(nb["encoded"]) == ret and nb["exact"] == "1" and nb["nul"] == "1"):
-                    viol("P:to_new_buffer-not-exact", c, L["new"], c.new)
+                    viol("P:to_new_buffer-not-exact", c, "new", c.new)
             else:
-                if int(nb["encoded"]) != -1 or nb["errno"] != clean["errno"]: viol("P:to_new_buffer-failure-differs", c, L["new"], c.new)
+                if int(nb["encoded"]) != -1 or nb["errno"] != clean["errno"]: viol("P:to_new_buffer-failure-differs", c, "new", c.new)
                 if c.new.startswith("buf=nonnull"):
-                    if not match_known(ctx, c, L["new"], c.new): viol("P:to_new_buffer-buffer-on-failure", c, L["new"], c.new)
-                    else: st.hist[("F39", c.syn)] += 1
-        # ---- P: asn_encode_to_buffer, every size
+                    if match_known(ctx, c, "new", c.new): st.hist[("F39", c.syn)] += 1
+                    else: viol("P:to_new_buffer-buffer-on-failure", c, "new", c.new)
+        # ---- P: asn_encode_to_buffer, every size: same size, no overrun, prefix
         for n, o in c.buf.items():
-            if o.startswith("CRASH") or o.startswith("HANG"): continue
+            if dead(o): continue
+            st.n_sizes += 1
             kv = parse_kv(o)
-            if kv["canary"] != "ok": viol("P:to_buffer-overrun", c, L[("buf", n)], o)
-            if int(kv["ret"]) != ret: viol("P:to_buffer-size-depends-on-n", c, L[("buf", n)], o, "clean run returned %d" % ret)
+            if kv["canary"] != "ok": viol("P:to_buffer-overrun", c, ("buf", n), o)
+            if int(kv["ret"]) != ret: viol("P:to_buffer-size-depends-on-n", c, ("buf", n), o, "asn_encode returned %d" % ret)
             if ret < 0:
-                if kv["errno"] != clean["errno"]: viol("P:to_buffer-errno-differs", c, L[("buf", n)], o)
+                if kv["errno"] != clean["errno"]: viol("P:to_buffer-errno-differs", c, ("buf", n), o)
                 continue
             w = unhx(kv["wrote"])
             if n >= ret:
-                if w != full: viol("P:to_buffer-content", c, L[("buf", n)], o, "expected " + hx(full)[:200])
+                if w != full: viol("P:to_buffer-content", c, ("buf", n), o, "expected " + hx(full)[:200])
             else:
                 j = 0
                 while j < len(w) and w[j] == full[j]: j += 1
-                # what follows the written prefix must be untouched fill
-                jj = j
-                while jj > 0 and w[jj:] != b"\xa5" * (len(w) - jj): jj -= 1
-                if w[jj:] != b"\xa5" * (len(w) - jj) or len(w) != n:
-                    viol("P:to_buffer-prefix", c, L[("buf", n)], o, "expected a prefix of " + hx(full)[:200])
-        # ---- P: failing callback
+                if len(w) != n or w[j:] != b"\xa5" * (n - j):     # written prefix, then untouched fill
+                    viol("P:to_buffer-prefix", c, ("buf", n), o, "expected a prefix of " + hx(full)[:200])
+        # ---- P: failing callback => -1 / EIO, delivered bytes are a prefix
         for k, o in c.cb.items():
-            if o.startswith("CRASH") or o.startswith("HANG"): continue
+            if dead(o): continue
             kv = parse_kv(o)
             st.n_k += 1
-            if int(kv["ret"]) != -1: viol("P:cb-failure-not--1", c, L[("cb", k)], o)
-            elif ret >= 0 and kv["errno"] != "EIO": viol("P:cb-failure-errno-not-EIO", c, L[("cb", k)], o)
-            elif ret < 0 and kv["errno"] not in ("EIO",): viol("P:cb-failure-errno-not-EIO", c, L[("cb", k)], o)
+            if int(kv["ret"]) != -1: viol("P:cb-failure-not--1", c, ("cb", k), o)
+            elif kv["errno"] != "EIO": viol("P:cb-failure-errno-not-EIO", c, ("cb", k), o)
             d = unhx(kv["delivered"])
-            if full[:len(d)] != d: viol("P:cb-delivered-not-prefix", c, L[("cb", k)], o)
-            elif len(d) != sum(csizes[:k]): viol("P:cb-delivered-wrong-prefix-length", c, L[("cb", k)], o)
+            if full[:len(d)] != d: viol("P:cb-delivered-not-prefix", c, ("cb", k), o)
+            elif len(d) != sum(csizes[:k]): viol("P:cb-delivered-wrong-prefix-length", c, ("cb", k), o)
         if ret >= 0 and c.buf and c.cb: ctx.count_nontrivial((m["name"], c.tn, c.syn, c.sx[:120]))
         elif ret < 0: ctx.count_nontrivial((m["name"], c.tn, c.syn, c.kind, c.sx[:120]))
 
@@ -343,43 +410,50 @@ def evaluate(ctx, st, m, txt, opts, cases):
 def correspond(ctx, st, m, txt, opts, cases):
     """K leg: the Lean wrappers applied to the raw run observed on C must predict every wrapper output"""
     mlines = []; meta = []
+    COST = 4e6
+    def add(c, key, cout, ml, cost):
+        if cost > COST: st.k_skipped_cost += 1; return
+        mlines.append(ml); meta.append((c, key, cout))
     for c in cases:
-        if c.raw is None or c.raw.startswith(("CRASH", "HANG", "load-error")) or c.raw in ("bad-op",): continue
+        if dead(c.raw) or not (c.raw.startswith("ret=") or c.raw == "noencoder"): continue
         tok = run_token(c.raw)
-        if len(tok) > 300000: continue
-        if c.clean is not None: mlines.append(f"c07.cb {c.syn} -1 {tok}"); meta.append((c, "clean", c.clean))
-        if c.new is not None: mlines.append(f"c07.tonew {c.syn} {tok}"); meta.append((c, "new", c.new))
-        for n, o in c.buf.items(): mlines.append(f"c07.tobuf {c.syn} {n} {tok}"); meta.append((c, ("buf", n), o))
+        nch = tok.count(",") + 1
+        size = len(tok) // 2
+        if c.clean is not None: add(c, "clean", c.clean, f"c07.cb {c.syn} -1 {tok}", size + nch)
+        if c.new is not None: add(c, "new", c.new, f"c07.tonew {c.syn} {tok}", nch * size // 2)
+        for n, o in c.buf.items(): add(c, ("buf", n), o, f"c07.tobuf {c.syn} {n} {tok}", nch * (n + 64) + size)
         for k, o in c.cb.items():
             rk = c.rawk.get(k)
-            if rk is None or rk.startswith(("CRASH", "HANG")): continue     # the raw encoder itself dies: P leg
-            mlines.append(f"c07.cb {c.syn} {k} {run_token(rk)}"); meta.append((c, ("cb", k), o))
+            if dead(rk) or not rk.startswith("ret="): continue      # the raw encoder itself dies: P leg
+            add(c, ("cb", k), o, f"c07.cb {c.syn} {k} {run_token(rk)}", size + nch)
     if not mlines: return
     if not getattr(ctx, "driver_ok", True):
-        ctx.broken.append({"kind": "correspondence", "name": "application", "msg": "Lean driver does not build"}); return
+        if not any(b.get("name") == "application" for b in ctx.broken):
+            ctx.broken.append({"kind": "correspondence", "name": "application", "msg": "Lean driver does not build"})
+        return
     rc, mouts, merr = ctx.run_lines(build.model_exe(), mlines)
     if rc != 0 or len(mouts) != len(mlines):
         raise RuntimeError("model driver failed: rc=%s %s" % (rc, merr[-500:]))
-    cs = ctx.cov["correspondence"].setdefault("application", {"lines": 0, "disagreements": 0, "c_crashes": 0, "explained_by_known_findings": 0})
+    cs = ctx.cov["correspondence"].setdefault("application", {"lines": 0, "disagreements": 0, "c_crashes": 0, "model_aborts_matching_c": 0})
     for (c, key, cout), ml, mo in zip(meta, mlines, mouts):
         cs["lines"] += 1
         cc = canon_c(cout)
         if cc.startswith(("CRASH", "HANG")):
             cs["c_crashes"] += 1        # sanitizer death / hang: P leg's business, not predictable by the wrapper model
             continue
-        if cc == mo: continue
-        if cc == "abort" and match_known(ctx, c, c.lines[key], cout):
-            cs["explained_by_known_findings"] += 1; continue
+        if cc == mo:
+            if mo == "abort": cs["model_aborts_matching_c"] += 1
+            continue
         cs["disagreements"] += 1
         st.kdis.append({"module": txt, "opts": list(opts), "type": c.tn, "op": c.lines[key], "c_output": str(cout)[:600],
-                        "model_op": ml[:600], "model_output": mo[:600], "encraw": (c.raw or "")[:600]})
-    if len(ctx.cov["samples"]) < 10 and mlines:
+                        "model_op": ml[:2000], "model_output": mo[:600]})
+    if len(ctx.cov["samples"]) < 10:
         for j in sorted({0, len(mlines) // 2, len(mlines) - 1}):
             c, key, cout = meta[j]
             ctx.cov["samples"].append({"op": c.lines[key][:300], "c": str(cout)[:300], "model_op": mlines[j][:300], "model": mouts[j][:300]})
 
 
-def process_module(ctx, st, m, items, opts=("-no-gen-example", "-fcompound-names")):
+def process_module(ctx, st, m, items, opts=DEFAULT_OPTS):
     """items: list of (type name, sexp, kind, valid, must_fail_syntaxes)"""
     txt = m.get("text") or genmod.module_text(m)
     env = dict(m["types"])
@@ -388,13 +462,11 @@ def process_module(ctx, st, m, items, opts=("-no-gen-example", "-fcompound-names
         exe = b.build()
     except bundle.Asn1cFailed as e:
         ctx.log("asn1c rejected module", m["name"], e.out.strip().split("\n")[0][:160]); b.cleanup(); return False
-    except build.BuildError as e:
-        ctx.log("module does not compile", m["name"], str(e)[:160]); b.cleanup(); return False
     try:
         cases = []
         featc = {}
         for tn, sx, kind, valid, must in items:
-            if tn not in featc: featc[tn] = gfind.features(env[tn], env)
+            if tn not in featc: featc[tn] = c07_feats(env[tn], env)
             feats = featc[tn]
             for syn in SYNTAXES:
                 if c01.skip_region(syn, feats, st.skipped): continue
@@ -407,42 +479,54 @@ def process_module(ctx, st, m, items, opts=("-no-gen-example", "-fcompound-names
             c.lines["clean"] = f"@{c.tn} enccb {c.syn} -1 {c.sx}"
             c.lines["new"] = f"@{c.tn} encnew {c.syn} {c.sx}"
             lines += [c.lines["raw"], c.lines["clean"], c.lines["new"]]
+        t0 = time.time()
         outs = run_safe(ctx, exe, lines, 300)
+        t1 = time.time()
         for i, c in enumerate(cases):
             c.raw, c.clean, c.new = outs[3 * i: 3 * i + 3]
         # phase 2: buffer sizes and failing callback indices
         lines = []; where = []
+        kcap = 10 if ctx.quick else 100
         for c in cases:
             if c.clean is None or not c.clean.startswith("ret="): continue
             kv = parse_kv(c.clean)
             ret = int(kv["ret"])
             csizes = [] if kv["chunks"] == "-" else [int(x) for x in kv["chunks"].split(",")]
             if ret >= 0:
-                ns = sizes_for(ctx, ret, csizes)
-                ks = ks_for(ctx, len(csizes), ret)
-                if not c.valid: ns = sorted(set(ns[:3] + ns[-3:])); ks = ks[:3]
+                light = ret > 2048 or not c.valid
+                ns = sizes_for(ctx, ret, csizes, light)
+                cap = 3 if light else kcap
+                # regions of the known callback-failure findings: a few probes only (every hit costs a process restart)
+                if (c.syn == "oer" and "seq_preamble" in c.feats) or (c.syn == "uper" and "SET OF" in c.feats) \
+                   or (c.syn == "der" and "NULL" in c.feats): cap = min(cap, 3 if ctx.quick else 8)
+                ks = ks_for(ctx, len(csizes), cap)
             else:
                 ns = [0, 1, 64]
-                ks = list(range(min(len(csizes), 3)))
+                ks = list(range(min(len(csizes), 2)))
             for n in ns:
                 c.lines[("buf", n)] = f"@{c.tn} encbuf {c.syn} {n} {c.sx}"; lines.append(c.lines[("buf", n)]); where.append((c, "buf", n))
             for k in ks:
                 c.lines[("cb", k)] = f"@{c.tn} enccb {c.syn} {k} {c.sx}"; lines.append(c.lines[("cb", k)]); where.append((c, "cb", k))
                 c.lines[("rawk", k)] = f"@{c.tn} encraw {c.syn} {k} {c.sx}"; lines.append(c.lines[("rawk", k)]); where.append((c, "rawk", k))
-        outs = run_safe(ctx, exe, lines, 600)
-        for (c, what, x), o in zip(where, outs):
+        outs2 = run_safe(ctx, exe, lines, 600)
+        t2 = time.time()
+        for (c, what, x), o in zip(where, outs2):
             {"buf": c.buf, "cb": c.cb, "rawk": c.rawk}[what][x] = o
         st.n_lines += 3 * len(cases) + len(lines)
         evaluate(ctx, st, m, txt, opts, cases)
+        t3 = time.time()
         correspond(ctx, st, m, txt, opts, cases)
+        if os.environ.get("C07_TIMES"):
+            ncr = sum(1 for o in outs + outs2 if dead(o))
+            ctx.log(f"module {m['name']}: cases={len(cases)} phase1={t1-t0:.1f}s ({3*len(cases)} lines) phase2={t2-t1:.1f}s "
+                    f"({len(lines)} lines) crashes={ncr} eval={t3-t2:.1f}s K={time.time()-t3:.1f}s")
     finally:
         b.cleanup()
     return True
 
 
-INV_MODULE = {
-    "name": "INV", "tagdefault": "AUTOMATIC",
-    "text": """INV DEFINITIONS AUTOMATIC TAGS ::= BEGIN
+# ------------------------------------------------------------------------------------------ fixed module (d)
+INV_TEXT = """INV DEFINITIONS AUTOMATIC TAGS ::= BEGIN
   A ::= SEQUENCE { x INTEGER (0..7), b B }
   B ::= CHOICE { n NULL, a A, i INTEGER (0..3), s IA5String (SIZE(1..3)) }
   L ::= SEQUENCE { v INTEGER (0..255), next L OPTIONAL }
@@ -451,33 +535,40 @@ INV_MODULE = {
   Q ::= SEQUENCE OF B
   U ::= SET OF INTEGER (0..7)
   V ::= SET OF B
+  SQ ::= SEQUENCE { a INTEGER (0..255), b BOOLEAN OPTIONAL }
+  SO ::= SET OF INTEGER (0..255)
+  N ::= NULL
+  Z ::= SEQUENCE { a OCTET STRING, b BOOLEAN }
 END
-""",
-    "types": None,
-}
+"""
 
 
 def inv_module_cases():
-    """fixed module compiled with -findirect-choice: NULL mandatory pointers, unselected / bad CHOICE at every depth"""
+    """fixed module compiled with -findirect-choice: NULL mandatory pointers (A.b is `struct B *b`, not OPTIONAL),
+    unselected / out-of-range CHOICE at every depth, the witness shapes of F7/F9/F70/F71/F72"""
     T = lambda k, **kw: dict(k=k, **kw)
+    I = lambda lo, hi: T("INTEGER", cons=genmod.cons(lo, hi))
     types = [
-        ("A", T("SEQUENCE", comps=[{"id": "x", "type": T("INTEGER", cons=genmod.cons(0, 7))}, {"id": "b", "type": T("REF", name="B")}])),
-        ("B", T("CHOICE", comps=[{"id": "n", "type": T("NULL")}, {"id": "a", "type": T("REF", name="A")},
-                                 {"id": "i", "type": T("INTEGER", cons=genmod.cons(0, 3))},
+        ("A", T("SEQUENCE", comps=[{"id": "x", "type": I(0, 7)}, {"id": "b", "type": T("REF", name="B")}])),
+        ("B", T("CHOICE", comps=[{"id": "n", "type": T("NULL")}, {"id": "a", "type": T("REF", name="A")}, {"id": "i", "type": I(0, 3)},
                                  {"id": "s", "type": T("IA5String", size=genmod.cons(1, 3))}])),
-        ("L", T("SEQUENCE", comps=[{"id": "v", "type": T("INTEGER", cons=genmod.cons(0, 255))}, {"id": "next", "type": T("REF", name="L"), "opt": "OPTIONAL"}])),
+        ("L", T("SEQUENCE", comps=[{"id": "v", "type": I(0, 255)}, {"id": "next", "type": T("REF", name="L"), "opt": "OPTIONAL"}])),
         ("P", T("SEQUENCE", comps=[{"id": "c", "type": T("CHOICE", comps=[{"id": "p", "type": T("REF", name="P")}, {"id": "z", "type": T("NULL")}])},
                                    {"id": "s", "type": T("OCTET STRING", size=genmod.cons(2, 2))}])),
         ("W", T("SEQUENCE", comps=[{"id": "o", "type": T("BOOLEAN"), "opt": "OPTIONAL"}, {"id": "c", "type": T("REF", name="B")},
-                                   {"id": "e", "type": T("INTEGER", cons=genmod.cons(0, 7)), "opt": "OPTIONAL"}], ext=2)),
+                                   {"id": "e", "type": I(0, 7), "opt": "OPTIONAL"}], ext=2)),
         ("Q", T("SEQUENCE OF", elem=T("REF", name="B"), size=None)),
-        ("U", T("SET OF", elem=T("INTEGER", cons=genmod.cons(0, 7)), size=None)),
+        ("U", T("SET OF", elem=I(0, 7), size=None)),
         ("V", T("SET OF", elem=T("REF", name="B"), size=None)),
+        ("SQ", T("SEQUENCE", comps=[{"id": "a", "type": I(0, 255)}, {"id": "b", "type": T("BOOLEAN"), "opt": "OPTIONAL"}])),
+        ("SO", T("SET OF", elem=I(0, 255), size=None)),
+        ("N", T("NULL")),
+        ("Z", T("SEQUENCE", comps=[{"id": "a", "type": T("OCTET STRING")}, {"id": "b", "type": T("BOOLEAN")}])),
     ]
-    m = dict(INV_MODULE); m["types"] = types
+    m = {"name": "INV", "tagdefault": "AUTOMATIC", "text": INV_TEXT, "types": types}
     allsyn = set(SYNTAXES)
     items = []
-    def add(tn, sx, kind, valid=False, must=allsyn): items.append((tn, sx, kind, valid, must if not valid else set()))
+    def add(tn, sx, kind, valid=False, must=allsyn): items.append((tn, sx, kind, valid, set() if valid else must))
     add("A", "(seq (x (int 1)) (b (choice n (null))))", "valid", True)
     add("A", "(seq (x (int 1)) (b (choice a (seq (x (int 2)) (b (choice i (int 3)))))))", "valid", True)
     add("A", "(seq (x (int 1)))", "omit-pointer")                                         # NULL mandatory pointer
@@ -496,10 +587,10 @@ def inv_module_cases():
     add("P", "(seq (c (choice z (null))) (s (os 0102)))", "valid", True)
     add("P", "(seq (c (choice p (seq (c (choice z (null))) (s (os 0304))))) (s (os 0102)))", "valid", True)
     add("P", "(seq (c (choice -none)) (s (os 0102)))", "choice-none")
-    add("P", "(seq (s (os 0102)))", "choice-none")                                        # zeroed inline CHOICE
+    add("P", "(seq (s (os 0102)))", "choice-none")                                        # zero-initialised inline CHOICE
     add("P", "(seq (c (choice p (seq (c (choice -bad)) (s (os 0304))))) (s (os 0102)))", "choice-bad")
     add("P", "(seq (c (choice z (null))) (s (os 010203)))", "size-long", must={"uper"})
-    add("P", "(seq (c (choice z (null))))", "omit:OCTET_STRING", must=set())              # zeroed OCTET STRING (buf NULL)
+    add("P", "(seq (c (choice z (null))))", "omit:OCTET_STRING", must={"uper"})           # zero-initialised OCTET STRING (SIZE(2))
     add("W", "(seq (o (bool t)) (c (choice n (null))) (e (int 3)))", "valid", True)
     add("W", "(seq (c (choice i (int 1))))", "valid", True)
     add("W", "(seq (o (bool t)) (e (int 3)))", "choice-none")
@@ -513,12 +604,18 @@ def inv_module_cases():
     add("U", "(list (int 1) (int 9))", "int-range", must={"uper"})                       # F7 witness shape
     add("V", "(list (choice n (null)) (choice i (int 1)))", "valid", True)
     add("V", "(list (choice n (null)) (choice -none))", "choice-none")
+    add("SQ", "(seq (a (int 5)))", "valid", True); add("SQ", "(seq (a (int 5)) (b (bool t)))", "valid", True)
+    add("SO", "(list (int 1) (int 2) (int 3))", "valid", True); add("SO", "(list)", "valid", True)
+    add("N", "(null)", "valid", True)
+    add("Z", "(seq (a (os 0102)) (b (bool t)))", "valid", True)
+    add("Z", "(seq (b (bool t)))", "omit:OCTET_STRING", must=set())                       # F72 witness shape
     return m, items
 
 
+# ------------------------------------------------------------------------------------------ report / replay / run
 def report(ctx, st):
     if os.environ.get("C07_DUMP"):
-        json.dump({"fail": {k: v for k, v in st.fail.items()}, "kdis": st.kdis[:50]}, open(os.environ["C07_DUMP"], "w"), indent=1)
+        json.dump({"fail": st.fail, "kdis": st.kdis[:50]}, open(os.environ["C07_DUMP"], "w"), indent=1)
     shown = 0
     for cls, (n, sample) in st.fail.items():
         if shown >= 6:
@@ -531,16 +628,17 @@ def report(ctx, st):
         for d in st.kdis[:3]:
             ctx.log("K-DISAGREE", d["op"][:140], "| C:", d["c_output"][:140], "| model:", d["model_output"][:140])
         if not st.fail:
+            d = st.kdis[0]
             ctx.violation("C07 correspondence: the model of asn_application.c no longer predicts C "
-                          f"({len(st.kdis)} lines), first: {st.kdis[0]['op'][:120]} C={st.kdis[0]['c_output'][:100]} model={st.kdis[0]['model_output'][:100]}",
-                          st.kdis[0], found_input=False)
+                          f"({len(st.kdis)} lines), first: {d['op'][:120]} C={d['c_output'][:100]} model={d['model_output'][:100]}",
+                          d, found_input=False)
 
 
 def replay(ctx, path):
     r = json.load(open(path))
-    if "broken" in r and "module" not in r: print(json.dumps(r["broken"], indent=1)[:3000]); return
+    if "module" not in r: print(json.dumps(r.get("broken"), indent=1)[:3000]); return
     names = re.findall(r"^\s*([A-Za-z][\w-]*)\s*::=", r["module"], re.M)
-    b = bundle.Bundle("replay", r["module"], names, driver_sources=DS, opts=tuple(r.get("opts") or ("-no-gen-example", "-fcompound-names")))
+    b = bundle.Bundle("replay", r["module"], names, driver_sources=DS, opts=tuple(r.get("opts") or DEFAULT_OPTS))
     exe = b.build()
     outs = run_safe(ctx, exe, [r["op"]], 60)
     print("replay:", r["op"][:300], "=>", str(outs[0])[:600])
@@ -551,57 +649,67 @@ def replay(ctx, path):
     b.cleanup()
 
 
+def pick_values(ctx, vals, fixed):
+    """quick tier, boundary module: all small values, two large ones"""
+    if not (fixed and ctx.quick): return vals
+    small = [v for v in vals if len(repr(v)) < 1500]
+    big = [v for v in vals if len(repr(v)) >= 1500]
+    return small[:9] + big[:1] + big[-1:]
+
+
 def run(ctx):
     ids = {f["id"] for f in ctx.findings}
     ctx.findings += [f for f in PROPOSED_FINDINGS if f["id"] not in ids]
     ctx.lean()
-    st = Stats(); st.skipped = collections.Counter()
+    st = Stats()
     gfind.replay_witnesses(ctx, driver_sources=DS)
     rng = ctx.rng
     nb = int(os.environ.get("C07_NB", 5 if ctx.quick else 40))
     nvals = 5 if ctx.quick else 16
+    nvar = 8 if ctx.quick else 60
     built = 0
-    # ---- (a)(b)(c) valid values: boundary module + generated modules; (d) planted defects in the same modules
     bm, bvals = genmod.boundary_module(rng, ctx.quick)
     mods = [(bm, bvals)] + [(mm, None) for mm in c01.gen_bundles(ctx, nb)]
     for m, fixed in mods:
         env = dict(m["types"])
         vg = genmod.ValGen(rng, env)
         items = []
+        nbuf_omit = 0
         for n, t in m["types"]:
-            vals = fixed[n] if fixed is not None else vg.values(t, nvals)
-            if fixed is not None and ctx.quick:
-                small = [v for v in vals if len(repr(v)) < 60000]
-                vals = small[:10] + small[-2:] if len(small) > 12 else small
+            vals = pick_values(ctx, fixed[n] if fixed is not None else vg.values(t, nvals), fixed is not None)
             for v in vals:
                 items.append((n, genmod.val_sexp(t, v, env), "valid", True, set()))
-            # planted defects (at every position of one or two base values)
-            bases = vals[:1] + ([vals[len(vals) // 2]] if len(vals) > 2 else [])
+            # (d) one planted defect at every position of one (thorough: two) base values
+            bases = vals[:1] + ([vals[len(vals) // 2]] if len(vals) > 2 and not ctx.quick else [])
             seen = set()
             for bv in bases:
                 if len(repr(bv)) > 3000: continue
-                nvar = 0
+                cnt = 0
                 for w, kind in invalid_variants(t, bv, env, rng):
                     sx = render(t, w, env)
                     if sx in seen: continue
-                    seen.add(sx); nvar += 1
+                    if kind.startswith("omit:") and kind[5:].replace("_", " ") in BUF_KINDS | {"INTEGER t"}:
+                        # F72 region (zero-initialised buf/size primitive): a few per module, each costs process restarts
+                        nbuf_omit += 1
+                        if nbuf_omit > (2 if ctx.quick else 10): continue
+                    seen.add(sx); cnt += 1
                     items.append((n, sx, kind, False, MUST_FAIL.get(kind, set())))
-                    if nvar >= (12 if ctx.quick else 60): break
+                    if cnt >= nvar: break
         if process_module(ctx, st, m, items): built += 1
-    # ---- (d) fixed module with recursion / -findirect-choice
     im, iitems = inv_module_cases()
-    if process_module(ctx, st, im, iitems, opts=("-no-gen-example", "-fcompound-names", "-findirect-choice")): built += 1
+    if process_module(ctx, st, im, iitems, opts=DEFAULT_OPTS + ("-findirect-choice",)): built += 1
     ctx.cov["evaluations"] += st.n_lines
     ctx.cov["programs"] = built
     ctx.cov["predicate"]["api_contract"] = {
-        "modules_built": built, "cases": st.n_cases, "c_lines": st.n_lines, "callback_failure_points": st.n_k,
-        "failure_classes": len(st.fail), "skipped_known_regions": dict(st.skipped),
+        "modules_built": built, "cases": st.n_cases, "c_lines": st.n_lines, "buffer_sizes_checked": st.n_sizes,
+        "callback_failure_points": st.n_k, "failure_classes": len(st.fail), "skipped_known_regions": dict(st.skipped),
+        "K_lines_skipped_for_cost": st.k_skipped_cost,
         "histogram": {"/".join(k): v for k, v in sorted(st.hist.items())}}
-    ctx.cov["rule"] = ("generated modules + boundary module + fixed recursive module; per (type, value, syntax): raw encoder run, "
-                       "asn_encode_to_buffer at every size 0..n+1 (n <= 64; sampled at chunk boundaries beyond), asn_encode_to_new_buffer, "
-                       "asn_encode with the callback failing at each invocation index; invalid structures by planting one defect at every "
-                       "position; distinct = distinct (module, type, syntax, value); non-trivial = the case reached the size sweep and the "
-                       "failure sweep (valid) or was refused by the encoder (invalid)")
+    ctx.cov["rule"] = ("generated modules + boundary module + fixed recursive module (-findirect-choice); per (type, value, syntax): raw "
+                       "encoder run, asn_encode_to_buffer at every size 0..n+1 (n <= 64; chunk boundaries +-1 and samples beyond), "
+                       "asn_encode_to_new_buffer, asn_encode with the callback failing at each invocation index (capped per case); invalid "
+                       "structures by planting one defect at every position; distinct = distinct (module, type, syntax, value); "
+                       "non-trivial = the case went through the size sweep and the failure sweep (valid) or was refused by the encoder")
     report(ctx, st)
     for key, n in sorted(st.hist.items()):
-        if key[0] in ("valid-value-refused", "known-crash", "F39"): ctx.log("stat", "/".join(key), n)
+        if key[0] in ("valid-value-refused", "known-crash", "F39", "invalid-accepted"): ctx.log("stat", "/".join(key), n)
